@@ -24,6 +24,29 @@ func (e *hxErr) Error() string { return e.s }
 var hxSinkErr = &hxErr{"sink failed"}
 var hxProdErr = &hxErr{"producer failed"}
 
+// What a failing producer returns is the caller's business: any error value
+// counts, also the io sentinel errors and errors that wrap them.
+var hxProdErrKind int
+
+type hxWrapErr struct{ inner error }
+
+func (e *hxWrapErr) Error() string { return "producer: " + e.inner.Error() }
+func (e *hxWrapErr) Unwrap() error { return e.inner }
+
+var hxProdErrNames = []string{"custom error", "io.EOF", "io.ErrUnexpectedEOF", "error wrapping io.EOF"}
+
+func hxProdFail() error {
+	switch hxProdErrKind {
+	case 1:
+		return io.EOF
+	case 2:
+		return io.ErrUnexpectedEOF
+	case 3:
+		return &hxWrapErr{io.EOF}
+	}
+	return hxProdErr
+}
+
 // hxFailW accepts bytes up to offset k and fails from then on. It only
 // counts, so k can stay symbolic.
 type hxFailW struct {
